@@ -20,4 +20,33 @@ def windowUnsetGuard : String := "from == 0 && until == 0"
 /-- C09: guard under which `getAnchorUntil` substitutes the default -/
 def anchorUntilGuard : String := "from != 0 && until == 0"
 
+/-- C05: NumberToJSON uses fixed notation exactly for 1e-6 ≤ v < 1e21 (conjuncts sorted) -/
+def es6FixedRange : List (String × String × String) :=
+  [("ieeeF64", "<", "1e+21"), ("ieeeF64", ">=", "1e-6")]
+
+/-- C05: member names are compared on their UTF-16 code units -/
+def jcsSortKey : String := "utf16.Encode([]rune(rawUTF8))"
+
+/-- C05: the short escapes and the `\u00xx` rule of `decorateString` -/
+def jcsAsciiEscapes : List String := ["'\\\\'", "'\"'", "'b'", "'f'", "'n'", "'r'", "'t'"]
+def jcsBinaryEscapes : List String := ["'\\\\'", "'\"'", "'\\b'", "'\\f'", "'\\n'", "'\\r'", "'\\t'"]
+def jcsControlFormat : String := "c < 0x20 => \"\\\\u%04x\""
+
+/-- C06: `GetHashFromMultihash` -/
+def hashSupportedCodes : List (String × String) :=
+  [("multihash.SHA2_256", "crypto.SHA256"), ("multihash.SHA2_512", "crypto.SHA512")]
+
+/-- C06: `IsValidModelMultihash` recomputes with the code of the supplied hash and compares the
+    *encoded strings* -/
+def isValidCompare : String := "encodedComputedMultihash != modelMultihash"
+def isValidCalls : List String := ["GetMultihashCode(modelMultihash)", "CalculateModelMultihash(model, uint(code))"]
+
+/-- C04: `GetCommitment` hashes the canonical JWK with the algorithm of the code, then wraps the
+    hash of that digest -/
+def commitmentInnerHash : List String :=
+  ["canonicalizer.MarshalCanonical(jwk)", "hashing.GetHashFromMultihash(multihashCode)",
+   "hashing.GetHash(hash, data)", "hashing.ComputeMultihash(multihashCode, dataHash)"]
+def commitmentFromRevealCalls : List String :=
+  ["hashing.GetMultihash(rv)", "hashing.ComputeMultihash(uint(mh.Code), mh.Digest)"]
+
 end Sidetree.Expected
